@@ -78,11 +78,21 @@ class Track:
         return it
 
 
-def build_track(enc, cyl, head, sectors, order=None, gap1=None, gap2=None, gap3=None, gap4=None, sync=None, deleted=(), size_code=1):
-    """sectors: dict rec -> bytes (256).  order: physical order of record numbers."""
+def build_track(enc, cyl, head, sectors, order=None, gap1=None, gap2=None, gap3=None, gap4=None, sync=None, deleted=(), size_code=1, prologue=()):
+    """sectors: dict rec -> bytes (256).  order: physical order of record numbers.
+    prologue: recoverable anomalies recorded before the sectors proper, as (kind, rec): 'orphan' = a good sector ID with no data
+    record after it (a long gap instead), 'badcrc' = ID + data record whose CRC is wrong, 'deleted' = ID + deleted-data record."""
     t = Track(enc)
     fm = enc == "FM"
     t.gap(gap1 if gap1 is not None else (16 if fm else 40))
+    for kind, rec in prologue:
+        t.field("id", rec, 0xFE, bytes([cyl, head, rec, size_code]), sync=sync)
+        if kind == "orphan":
+            t.gap(100 if fm else 140)
+            continue
+        t.gap(gap2 if gap2 is not None else (11 if fm else 22))
+        t.field("data", rec, 0xF8 if kind == "deleted" else 0xFB, bytes(b ^ 0x5A for b in sectors[rec]), sync=sync, crc_ok=(kind != "badcrc"))
+        t.gap(gap3 if gap3 is not None else (10 if fm else 24))
     for rec in (order or sorted(sectors)):
         t.field("id", rec, 0xFE, bytes([cyl, head, rec, size_code]), sync=sync)
         t.gap(gap2 if gap2 is not None else (11 if fm else 22))
@@ -249,7 +259,8 @@ def write_hxcmfm(path, sides, ntracks):
     return path
 
 
-def image_to_flux(img, ntracks, spt, enc, fmt, path, nsides=1, order=None, gaps=None, ops=None, side1_head=1, version=1, skew=0, exact_len=False):
+def image_to_flux(img, ntracks, spt, enc, fmt, path, nsides=1, order=None, gaps=None, ops=None, side1_head=1, version=1, skew=0, exact_len=False,
+                  prologue=None):
     """img: bytes of a non-interleaved sector dump (side 0 then side 1).  fmt: 'hfe' | 'mfm'."""
     gaps = gaps or {}
     sides = []
@@ -262,7 +273,8 @@ def image_to_flux(img, ntracks, spt, enc, fmt, path, nsides=1, order=None, gaps=
             if skew:
                 k = (t * skew) % spt
                 o = o[k:] + o[:k]
-            tk = build_track(enc, t, s if (s == 0 or side1_head) else 0, secs, order=o, **gaps)
+            tk = build_track(enc, t, s if (s == 0 or side1_head) else 0, secs, order=o,
+                             prologue=(prologue(t, s) if callable(prologue) else (prologue or ())), **gaps)
             if fmt == "hfe":
                 st = hfe_side_stream(tk)
                 if version == 3 and ops:
